@@ -187,7 +187,11 @@ def run_shard(args):
         res0 = inproc.run({"test_a.py": src0}, ("create",))
         canon = {}
         if not res0.crashed() and not res0.exec_exc:
-            a0, _ = program.outer_snapshot_args(res0.files_after["test_a.py"].decode())
+            try:
+                a0, _ = program.outer_snapshot_args(res0.files_after["test_a.py"].decode())
+            except SyntaxError as e:
+                out["violations"].append({"kind": "unparsable", "detail": {"variant": "lf", "F": ["create"], "error": str(e), "new": res0.files_after["test_a.py"].decode()[:3000]}, "witness": {"files": {"test_a.py": src0}, "flags": ["create"]}, "finding": None})
+                continue
             ids0 = [s["id"] for s in sites if s["op"] == "clean"] or [0]
             canon = dict(zip(ids0, a0))
         for s in sites:
